@@ -93,6 +93,10 @@ SPECS = [
        params={"_shift": ((2,), False), "_scale": ((2,), True)}, constrain=_nonzero("_scale")),
     mk("PointwiseAffineScalar", lambda: ST.PointwiseAffineTransform(shift=0.5, scale=2.0), ST.PointwiseAffineTransform, shape=(2, 1, 2, 2),
        params={"_shift": ((), False), "_scale": ((), True)}, constrain=_nonzero("_scale")),
+    mk("PointwiseAffineChannel", lambda: ST.PointwiseAffineTransform(shift=torch.zeros(2, 1, 1), scale=torch.ones(2, 1, 1)), ST.PointwiseAffineTransform,
+       shape=(1, 2, 2, 1), params={"_shift": ((2, 1, 1), False), "_scale": ((2, 1, 1), True)}, constrain=_nonzero("_scale")),
+    mk("PointwiseAffineLastDim", lambda: ST.PointwiseAffineTransform(shift=torch.zeros(2), scale=torch.ones(2)), ST.PointwiseAffineTransform,
+       shape=(2, 1, 2, 2), params={"_shift": ((2,), False), "_scale": ((2,), True)}, constrain=_nonzero("_scale")),
     mk("Identity", lambda: ST.IdentityTransform(), ST.IdentityTransform),
     mk("GLU", lambda: NL.GatedLinearUnit(), NL.GatedLinearUnit, shape=(2, 2), ctx_shape=(2, 1)),
     mk("GLUfull", lambda: NL.GatedLinearUnit(), NL.GatedLinearUnit, shape=(2, 2), ctx_shape=(2, 2)),
